@@ -30,6 +30,8 @@ func orphans(r *ev.Run) {
 		{"emptied", 1}, {"locked", 1}, {"k-plain", 1}, {"k-plain-and-others", 1},
 		{"other-plain-key", -1}, {"only-certificate-of-other-key", -1}, {"only-certificates-of-two-other-keys", -1}, {"other-plain-key-and-other-certificate", -1},
 		{"only-certificate-over-k", 0},
+		// the list is non-empty when it is reported, even if everything in it is about to be purged
+		{"only-expired-certificate-of-other-key", -1}, {"only-premature-certificate-of-other-key", -1}, {"expired-and-premature-certificates-of-other-keys", -1},
 	}
 	idx := 0
 	for _, noUp := range []bool{false, true} {
@@ -115,6 +117,13 @@ func orphans(r *ev.Run) {
 							ag.Keyring.Add(plainCert(o2))
 						case "only-certificate-over-k":
 							ag.Keyring.Add(plainCert(k))
+						case "only-expired-certificate-of-other-key":
+							ag.Keyring.Add(agent.AddedKey{PrivateKey: o1.Priv, Certificate: gen.MakeCert(gen.CertSpec{Key: o1, KeyID: "expired@example", ValidAfter: now - 7200, ValidBefore: now - 3600})})
+						case "only-premature-certificate-of-other-key":
+							ag.Keyring.Add(agent.AddedKey{PrivateKey: o1.Priv, Certificate: gen.MakeCert(gen.CertSpec{Key: o1, KeyID: "premature@example", ValidAfter: now + 3600, ValidBefore: now + 7200})})
+						case "expired-and-premature-certificates-of-other-keys":
+							ag.Keyring.Add(agent.AddedKey{PrivateKey: o1.Priv, Certificate: gen.MakeCert(gen.CertSpec{Key: o1, KeyID: "expired@example", ValidAfter: now - 7200, ValidBefore: now - 3600})})
+							ag.Keyring.Add(agent.AddedKey{PrivateKey: o2.Priv, Certificate: gen.MakeCert(gen.CertSpec{Key: o2, KeyID: "premature@example", ValidAfter: now + 3600, ValidBefore: now + 7200})})
 						}
 						// the first operation that runs the filter
 						listedNow, listedKnown := false, false
